@@ -134,3 +134,58 @@ Proof.
   - rewrite <- E, M. reflexivity.
   - rewrite (I2 k (I1 k NE)) in F. discriminate.
 Qed.
+
+(* ---- the boolean model is a sound abstraction of the content-carrying one ---- *)
+Definition cabs (o : cop) : fop :=
+  match o with
+  | CUpdate k _ => FUpdate k | CFlushOk => FFlushOk | CFlushFail w => FFlushFail w
+  | CEvictOk k => FEvictOk k | CEvictFail k => FEvictFail k
+  end.
+
+Record Sim (c : cst) (a : fst_) : Prop := {
+  s_un : forall k, mem c k <> file c k -> unsynced a k = true;
+  s_di : forall k, dirty a k = cdirty c k;
+  s_fl : flag a = cflag c
+}.
+
+Lemma sim_init f : Sim (cinit f) finit.
+Proof. constructor; cbn; intros; [exfalso; auto|reflexivity..]. Qed.
+
+Lemma sim_step c a o : Sim c a -> Sim (cstep c o) (fstep a (cabs o)).
+Proof.
+  intros [U D F]. destruct o as [k v| |w|k|k]; constructor;
+    cbn [cabs cstep fstep mem file cdirty cflag unsynced dirty flag]; unfold setb, setn; try intros x H; try intros x.
+  - destruct (x =? k); [reflexivity|apply U; exact H].
+  - rewrite D. reflexivity.
+  - reflexivity.
+  - rewrite D. destruct (cdirty c x); [exfalso; apply H; reflexivity|apply U; exact H].
+  - reflexivity.
+  - reflexivity.
+  - rewrite D. destruct (cdirty c x && existsb (N.eqb x) w); [exfalso; apply H; reflexivity|apply U; exact H].
+  - rewrite D. reflexivity.
+  - reflexivity.
+  - rewrite D. destruct (cdirty c k).
+    + destruct (N.eq_dec x k) as [E|NE].
+      * subst x. rewrite N.eqb_refl in H. exfalso. apply H. reflexivity.
+      * apply N.eqb_neq in NE. rewrite NE in H |- *. apply U. exact H.
+    + apply U. exact H.
+  - rewrite D. reflexivity.
+  - exact F.
+  - apply U. exact H.
+  - apply D.
+  - rewrite D, F. reflexivity.
+Qed.
+
+Theorem sim_run ops : forall c a, Sim c a -> Sim (crun_ c ops) (frun a (map cabs ops)).
+Proof.
+  induction ops as [|o r IH]; intros c a S; [exact S|]. cbn [crun_ frun fold_left map]. apply IH. apply sim_step. exact S.
+Qed.
+
+(* so every statement about `unsynced` of the boolean model is a statement about file <> running view *)
+Corollary abstract_clean_means_equal f ops k :
+  unsynced (frun finit (map cabs ops)) k = false -> file (crun_ (cinit f) ops) k = mem (crun_ (cinit f) ops) k.
+Proof.
+  intros H. destruct (sim_run ops _ _ (sim_init f)) as [U _ _].
+  destruct (N.eq_dec (mem (crun_ (cinit f) ops) k) (file (crun_ (cinit f) ops) k)) as [E|NE]; [symmetry; exact E|].
+  rewrite (U k NE) in H. discriminate.
+Qed.
